@@ -125,8 +125,65 @@ class ConcreteAPI(object):
         self._tmp.append(d)
         return os.path.join(d, name)
 
+
+    def _install_log(self):
+        """log the writes of the real file objects opened by traph.traph (test double around open)"""
+        import builtins
+        mod = self.module("traph.traph")
+        if getattr(self, "_log", None) is not None:
+            return
+        self._log = []
+        log = self._log
+
+        class LoggedFile(object):
+            def __init__(self, f, path):
+                self.__dict__["f"] = f
+                self.__dict__["path"] = path
+
+            def write(self, data):
+                off = self.f.tell()
+                self.f.seek(0, 2)
+                end = self.f.tell()
+                self.f.seek(off)
+                log.append([os.path.basename(self.path), off, bytes(data), off >= end])
+                return self.f.write(data)
+
+            def __getattr__(self, name):
+                return getattr(self.f, name)
+
+        def logged_open(path, mode="r", *a, **k):
+            f = builtins.open(path, mode, *a, **k)
+            if "w" in mode:
+                log.append([os.path.basename(path), "create"])
+            return LoggedFile(f, path)
+        mod.open = logged_open
+
     def Traph(self, **kw):
+        if self.params.get("log_writes"):
+            self._install_log()
         return self.traph_module().Traph(**kw)
+
+    def write_log(self):
+        return list(self._log)
+
+    def materialise(self, folder, events, torn=None):
+        os.makedirs(folder)
+        files = {}
+        for ev in events:
+            path = os.path.join(folder, ev[0])
+            if ev[1] == "create":
+                files[path] = bytearray()
+            else:
+                buf = files[path]
+                if ev[1] > len(buf):
+                    buf.extend(b"\0" * (ev[1] - len(buf)))
+                buf[ev[1]:ev[1] + len(ev[2])] = ev[2]
+        if torn is not None:
+            ev, r = torn
+            files[os.path.join(folder, ev[0])].extend(ev[2][:int(r)])
+        for path, buf in files.items():
+            with open(path, "wb") as f:
+                f.write(bytes(buf))
 
     @property
     def struct(self):
@@ -172,6 +229,11 @@ class ConcreteAPI(object):
             raise CheckFailed("exc:%s@%s" % (e.__class__.__name__, site), "%s: %s at %s" % (e.__class__.__name__, e, where))
 
     def cleanup(self):
+        if getattr(self, "_log", None) is not None:
+            try:
+                del self.module("traph.traph").open
+            except Exception:
+                pass
         for d in self._tmp:
             shutil.rmtree(d, ignore_errors=True)
         self._tmp = []
